@@ -163,6 +163,10 @@ def gen_op(rng, tree, state):
     if comp:
         if mk == 'fixed':
             return None
+        if cap is not None and rng.random() < 0.2:
+            # grow to the edge of what the sizer can count
+            n = max(0, cap - ln + rng.choice([-1, 0, 1]))
+            return {'op': 'extend', 'path': path, 'i': i, 'a': {'list': [{'msg': [mt['name'], V.gen_value(rng, mt, max_len=1)], '_tree': mt} for _ in range(n)]}}
         r = rng.random()
         if r < 0.45:
             return {'op': 'add', 'path': path, 'i': i}
@@ -211,6 +215,40 @@ def gen_op(rng, tree, state):
     present = [x for x in v if isinstance(x, int)]
     a = {'int': rng.choice(present)} if present and rng.random() < 0.6 else rng.choice([{'int': 424242}, {'str': 'a'}, 'flt', None])
     return {'op': 'remove', 'path': path, 'i': i, 'a': a}
+
+
+def edge_arrays(tree):
+    return [i for i, m in enumerate(tree.get('ms', [])) if m['mk'] in ('dyn', 'limited') and m['t']['k'] != 'byte' and sizer_cap(tree, m) is not None]
+
+
+def edge_op(rng, tree, state, i, k):
+    """the k-th operation of a history that walks the sizer-limited array member `i` of the message to the edge of what its
+    counter can count and tries to step over it in every way the API offers"""
+    m, v = tree['ms'][i], state['s'][i]
+    mt, cap, ln = m['t'], sizer_cap(tree, m), len(state['s'][i])
+    comp = mt['k'] in ('struct', 'union')
+
+    def elems(n):
+        if comp:
+            return {'list': [{'msg': [mt['name'], V.gen_value(rng, mt, max_len=1)], '_tree': mt} for _ in range(n)]}
+        return collection_arg(rng, mt, n=n)
+    one = {'op': 'add', 'path': [], 'i': i} if comp else {'op': 'append', 'path': [], 'i': i, 'a': scalar_arg(rng, mt)}
+    if k == 0:
+        return {'op': 'extend', 'path': [], 'i': i, 'a': elems(max(0, cap - 1 - ln))}
+    if k in (1, 2, 8):
+        return one                                      # reaches the limit, then one too many
+    if k == 3:
+        return {'op': 'extend', 'path': [], 'i': i, 'a': elems(1)} if comp else {'op': 'insert', 'path': [], 'i': i, 'idx': 0, 'a': scalar_arg(rng, mt)}
+    if k == 4:
+        return {'op': 'delItem', 'path': [], 'i': i, 'idx': 0} if comp else \
+            {'op': 'setSlice', 'path': [], 'i': i, 'lo': 1, 'hi': 1, 'step': None, 'a': collection_arg(rng, mt, n=1)}
+    if k == 5:
+        return {'op': 'delItem', 'path': [], 'i': i, 'idx': -1}
+    if k == 6:
+        return {'op': 'extend', 'path': [], 'i': i, 'a': elems(3)}
+    if k == 7:
+        return {'op': 'extend', 'path': [], 'i': i, 'a': elems(1)}
+    return None
 
 
 # ----------------------------------------------------------------------------- running on real objects
@@ -432,6 +470,126 @@ def shared_container_types(chk):
                                {'what': 'a bool / int subclass assigned to an integer field is not stored as the plain integer', 'str': str(x)})
 
 
+def audit5_cases(chk):
+    """operations outside the generated histories (audit round 5): number subclasses in float fields (D162), a sort whose key
+    function fails (D163), the arm a decode leaves behind (D164), descriptors and discriminator assignments with numbers that
+    are not integers (D165)"""
+    import decimal
+    import fractions
+    import re
+    import prophy
+    sb = prophy.with_metaclass(prophy.struct_generator, prophy.struct)
+    ub = prophy.with_metaclass(prophy.union_generator, prophy.union)
+
+    def violation(schema, operation, what, **more):
+        chk.property_violation({'schema': schema, 'operation': operation}, dict({'what': what}, **more))
+
+    def case(key):
+        chk.count(('audit5',) + key, True)
+        chk.bump('directed:audit round 5')
+
+    # D162: what is stored is what a decoded message shows
+    schema = 'hand-written F{r32 f; r64 d; u8 n; r32 a<@n>; r64* o}'
+    F = type(sb)('F5', (sb,), {'_descriptor': [('f', prophy.r32), ('d', prophy.r64), ('n', prophy.u8), ('a', prophy.array(prophy.r32, bound='n')),
+                                              ('o', prophy.optional(prophy.r64))]})
+
+    class MyFloat(float):
+        pass
+    for name, value in (('re.IGNORECASE', re.IGNORECASE), ('True', True), ('a float subclass', MyFloat(2.5)), ('7', 7)):
+        case(('float-subclass', name))
+        x = F()
+        x.f = value
+        x.d = value
+        x.a.append(value)
+        x.o = value
+        y = F()
+        y.decode(x.encode('<'), '<')
+        pairs = [(x.f, y.f), (x.d, y.d), (x.a[0], y.a[0]), (x.o, y.o)]
+        # an int stays the int it is (known finding D58: the assigned number is read back), a subclass does not survive
+        if any(type(a) not in (int, float) or float(a) != b for a, b in pairs):
+            violation(schema, 'f = d = o = %s; a.append(%s)' % (name, name), 'the message prints differently from the message decoded from its encoding',
+                      sent=str(x), decoded=str(y))
+    # D163: a rejected sort leaves the array as it was
+    schema = 'hand-written A{u8 n; u16 a<@n>; u16 b[3]}'
+    A = type(sb)('A5', (sb,), {'_descriptor': [('n', prophy.u8), ('a', prophy.array(prophy.u16, bound='n')), ('b', prophy.array(prophy.u16, size=3))]})
+    for field, values in (('a', [5, 3, 9, 1, 7, 200, 100]), ('b', [3, 1, 2])):
+        case(('sort', field))
+        x = A()
+        getattr(x, field)[:] = values
+        before, enc = list(getattr(x, field)), x.encode('<')
+        rank = dict((v, i) for i, v in enumerate(reversed(values[:-1])))
+        try:
+            getattr(x, field).sort(rank.get)          # None for the last element: the comparison fails
+            violation(schema, '%s.sort(key)' % field, 'a key function returning None for one element was accepted')
+        except TypeError:
+            if list(getattr(x, field)) != before or x.encode('<') != enc:
+                violation(schema, '%s[:] = %s; %s.sort(key returning None for %d)' % (field, values, field, values[-1]),
+                          'a rejected sort changed the message', before=before, after=list(getattr(x, field)))
+        getattr(x, field).sort()
+        if list(getattr(x, field)) != sorted(values):
+            violation(schema, '%s.sort()' % field, 'sort() did not sort', after=list(getattr(x, field)))
+    # D164: only the arm the last decode selected is exposed, whatever the union held before
+    schema = 'hand-written U{0: u32 a; 1: u16 b}; X{u32 i; U u}'
+    U = type(ub)('U5', (ub,), {'_descriptor': [('a', prophy.u32, 0), ('b', prophy.u16, 1)]})
+    X = type(sb)('X5', (sb,), {'_descriptor': [('i', prophy.u32), ('u', U)]})
+    case(('stale-arm',))
+    x = X()
+    x.u.discriminator = 'b'
+    x.u.b = 9
+    x.decode(bytes.fromhex('01000000' '00000000' '07000000'), '<')        # arm a = 7
+    try:
+        x.decode(bytes.fromhex('02000000' '01000000' '00'), '<')          # arm b, truncated
+        violation(schema, 'decode of a truncated message', 'accepted')
+    except prophy.ProphyError:
+        if x.u.discriminator == 1 and x.u.b == 9:
+            violation(schema, 'u.b = 9; decode(arm a = 7); decode(arm b, truncated) refused',
+                      'the value a dead arm held before is readable again', state=str(x))
+    x.decode(bytes.fromhex('01000000' '01000000' '05000000'), '<')
+    if str(x) != 'i: 1\nu {\n  b: 5\n}\n':
+        violation(schema, 'decode(arm b = 5)', 'the decoded arm is not what is exposed', state=str(x))
+    # D165: numbers that are not integers
+    for what, build in (
+        ('union discriminator 1.5', lambda: type(ub)('Ud', (ub,), {'_descriptor': [('a', prophy.u32, 0), ('b', prophy.u16, 1.5)]})),
+        ('union discriminator 1.0', lambda: type(ub)('Ud', (ub,), {'_descriptor': [('a', prophy.u32, 0), ('b', prophy.u16, 1.0)]})),
+        ('array shift=1.0', lambda: type(sb)('Sd', (sb,), {'_descriptor': [('n', prophy.u8), ('a', prophy.array(prophy.u8, bound='n', shift=1.0))]})),
+        ('array shift=0.5', lambda: type(sb)('Sd', (sb,), {'_descriptor': [('n', prophy.u8), ('a', prophy.array(prophy.u8, bound='n', shift=0.5))]})),
+        ('bytes shift=2.5', lambda: type(sb)('Sd', (sb,), {'_descriptor': [('n', prophy.u8), ('a', prophy.bytes(bound='n', shift=2.5))]})),
+        ('array size=2.0', lambda: type(sb)('Sd', (sb,), {'_descriptor': [('a', prophy.array(prophy.u8, size=2.0))]})),
+        ('bytes size=2.5', lambda: type(sb)('Sd', (sb,), {'_descriptor': [('a', prophy.bytes(size=2.5))]})),
+    ):
+        case(('non-integer', what))
+        try:
+            cls = build()
+        except prophy.ProphyError:
+            continue
+        except Exception as ex:  # noqa
+            violation('hand-written descriptor with ' + what, 'class creation', 'refused with %s instead of ProphyError' % py_impl.exc_class(ex))
+            continue
+        try:
+            cls().encode('<')
+        except Exception as ex:  # noqa
+            violation('hand-written descriptor with ' + what, 'encode of the default message',
+                      'the class was accepted and its default message does not encode: %s' % py_impl.exc_class(ex))
+    Ux = type(ub)('Ux', (ub,), {'_descriptor': [('a', prophy.u32, 0), ('b', prophy.u16, 1)]})
+    for name, value in (('1.0', 1.0), ('Fraction(1)', fractions.Fraction(1)), ('Decimal(1)', decimal.Decimal(1)), ('1+0j', 1 + 0j)):
+        case(('discriminator', name))
+        u = Ux()
+        u.a = 42
+        try:
+            u.discriminator = value
+            violation('hand-written U{0: u32 a; 1: u16 b}', 'a = 42; discriminator = ' + name,
+                      'a number that is not an integer switched the arm (integer and enum fields refuse it)', state=str(u))
+        except prophy.ProphyError:
+            if str(u) != 'a: 42\n':
+                violation('hand-written U{0: u32 a; 1: u16 b}', 'discriminator = ' + name, 'a rejected assignment changed the union', state=str(u))
+        except Exception as ex:  # noqa
+            violation('hand-written U{0: u32 a; 1: u16 b}', 'discriminator = ' + name, 'rejected with %s instead of ProphyError' % py_impl.exc_class(ex))
+    u = Ux()
+    u.discriminator = True                                   # a bool is the integer 1
+    if u.discriminator != 1:
+        violation('hand-written U{0: u32 a; 1: u16 b}', 'discriminator = True', 'not the arm 1', state=str(u))
+
+
 def run_c10(tier):
     chk = core.Check('C10', tier)
     chk.rule = ('schemas without floating-point fields; per message type several histories of public API operations generated against the '
@@ -444,6 +602,7 @@ def run_c10(tier):
     try:
         shift_declarations(chk, corpus.workdir)
         shared_container_types(chk)
+        audit5_cases(chk)
         reqs = corpus.deft_requests()
         nd = len(reqs)
         rows = []
@@ -453,12 +612,16 @@ def run_c10(tier):
             if '"r32"' in json.dumps(c.tree) or '"r64"' in json.dumps(c.tree):
                 continue        # floating-point fields are outside this model (their range check is exercised by C01/C02 values)
             mod = corpus.mods[c.sidx]
-            for h in range(n_hist):
+            edges = edge_arrays(c.tree)
+            for h in range(n_hist + len(edges)):
                 msg = c.cls()
                 state = V.readback(msg, c.tree)
                 ops, obs = [], []
-                for _ in range(n_ops):
-                    op = gen_op(chk.rng, c.tree, state)
+                for k in range(n_ops):
+                    # one more history per sizer-limited array: to the edge of the counter's range and over it
+                    op = edge_op(chk.rng, c.tree, state, edges[h - n_hist], k) if h >= n_hist else None
+                    if op is None:
+                        op = gen_op(chk.rng, c.tree, state)
                     if op is None:
                         continue
                     exc = run_op(msg, c.tree, op, mod)
